@@ -339,11 +339,21 @@ def grouped_relabel_cases(ctx, n):
         b = results[0][2]
         if isinstance(b, str):
             continue
+        # the property speaks about uniquely determined matchings: a group in which two candidate pairs tie is skipped
+        tied = set()
+        for gname, labs in (("a", inst[:ka]), ("b", inst[ka:])):
+            pg = np.where(np.isin(pred, labs), pred, 0)
+            rg = np.where(np.isin(ref, labs), ref, 0)
+            if tie_or_fragile(E.mk_cfg("UNMATCHED", ["IOU"], matcher=E.naive("IOU", (1, 4))), pg, rg):
+                tied.add(gname)
+                ctx.count("grouped_relabel.tie_skipped")
         for mode, inp, res in results[1:]:
             if isinstance(res, str):
                 ctx.violation(f"evaluation with relabelled class groups raised {res}", inp, impl=res, key={"kind": "raises"})
                 continue
             for g in ("a", "b"):
+                if g in tied:
+                    continue
                 d = summ_equal(b[g], res[g], cfg["eval_metrics"])
                 if d:
                     inp2 = dict(inp)
@@ -446,7 +456,13 @@ def replay(ctx, rec):
             return E.run_impl(x["cfg"], np.array(x["pred"], dtype=dt).reshape(x["shape"]), np.array(x["ref"], dtype=dt).reshape(x["shape"]), groups=x["groups"])
         b, r = run(i["base"]), run(i)
         ctx.case(i, True)
-        for g in ("a", "b"):
+        bx = i["base"]
+        bp = np.array(bx["pred"], dtype=np.int64).reshape(bx["shape"])
+        br = np.array(bx["ref"], dtype=np.int64).reshape(bx["shape"])
+        for g, gd in zip(("a", "b"), bx["groups"]):
+            pg, rg = np.where(np.isin(bp, gd["labels"]), bp, 0), np.where(np.isin(br, gd["labels"]), br, 0)
+            if tie_or_fragile(E.mk_cfg("UNMATCHED", ["IOU"], matcher=E.naive("IOU", (1, 4))), pg, rg):
+                continue        # two candidates tie: the matching is not uniquely determined
             d = "raised" if isinstance(b, str) or isinstance(r, str) else summ_equal(b[g], r[g], i["cfg"]["eval_metrics"])
             if d:
                 ctx.violation(f"result of class group {g} changes when instance labels are renamed: {d}", i, key={"kind": "not-invariant"})
